@@ -33,6 +33,7 @@ LEVEL = 'model_checking'
 
 np = None
 MAX_STEPS = 8000
+MAX_STEPS_TTP = 30000      # the calculator solves with the default settings (RK4, no step cap): two-phase runs at 750 K take ~1e4 steps
 
 QUANT = {   # name: (condition class, pData attribute, what a selection names)
     'vf': ('VolumeFractionCondition', 'volFrac', 'phase'),
@@ -412,7 +413,7 @@ class PDataTap:
     def updateCoupledModel(self, model):
         if not self.seen or self.seen[-1] is not model.pData:
             self.seen.append(model.pData)
-        if model.pData.n > MAX_STEPS:
+        if model.pData.n > MAX_STEPS_TTP:
             raise precip.StepLimit()
 
 
@@ -556,11 +557,11 @@ def run(ctx):
     for system in ['bin', 'tern']:
         for nph in ([1] if quick else [1, 2]):
             for pbm in ['default', 'configured']:
-                for temps in ([[680.0, 720.0]] if quick else [[680.0, 720.0], [700.0, 800.0]]):
+                for temps in ([[680.0, 720.0]] if quick else [[680.0, 720.0], [700.0, 750.0]]):
                     tcases.append({'cfg': dict(BASE, system=system, nphases=nph), 'pbm': pbm, 'temps': temps})
     res = ctx.product_run('ttp', 'checks.c19:run_ttp', tcases, chunksize=1)
     if any(r.get('steplimit') for r in res):
-        ctx.cap('ttp: step limit %d hit' % MAX_STEPS)
+        ctx.cap('ttp: step limit %d hit' % MAX_STEPS_TTP)
     ctx.bounds = {'configurations': [_describe(c) for c in cfgs], 'quantities': list(QUANT), 'inequalities': ['>', '<'],
                   'threshold_classes': CLASSES, 'selection': 'default + last named' if quick else 'default + every named',
                   'single_modes': ['or', 'and'], 'pool': [POOL[i] for i in pool], 'pair_modes': MODES2, 'triple_modes': MODES3,
